@@ -77,12 +77,18 @@ func perturb(rt *rapid.T, c *Case) string {
 	tx := c.Tx
 	era := tx.Era
 	d := genDelta(rt)
-	ops := []string{"in-coin", "out-coin", "fee", "pp-key-deposit", "pp-pool-deposit", "drop-cert", "dup-cert", "pool-state-flip"}
+	ops := []string{"in-coin", "fee", "pp-key-deposit", "pp-pool-deposit", "drop-cert", "dup-cert", "pool-state-flip"}
+	if len(tx.Outs) > 0 {
+		ops = append(ops, "out-coin")
+	}
 	if len(tx.Wdrl) > 0 {
 		ops = append(ops, "wdrl", "drop-wdrl")
 	}
 	if era >= Mary {
-		ops = append(ops, "out-asset-add", "mint-add", "mint-add-with-output", "in-asset-add")
+		ops = append(ops, "mint-add", "in-asset-add")
+		if len(tx.Outs) > 0 {
+			ops = append(ops, "out-asset-add", "mint-add-with-output")
+		}
 		if len(tx.Mint) > 0 {
 			ops = append(ops, "mint-qty", "mint-drop", "mint-rename")
 		}
@@ -479,7 +485,7 @@ func TestC27(t *testing.T) {
 	rec.Check(func(rt *rapid.T) {
 		era := allEras[rapid.IntRange(0, len(allEras)-1).Draw(rt, "era")]
 		twice := rapid.IntRange(0, 3).Draw(rt, "allowPoolTwice") == 0
-		c := genCase(rt, era, genOpts{MaxCerts: 3, PoolRegTwice: twice})
+		c := genCase(rt, era, genOpts{MaxCerts: 3, PoolRegTwice: twice, Bystanders: true, AllowNoOutputs: true})
 		op := ""
 		mode := rapid.IntRange(0, 3).Draw(rt, "mode")
 		if mode != 0 {
@@ -566,6 +572,18 @@ func TestC27(t *testing.T) {
 		}
 		if tx.Donation != nil {
 			rec.Class("has_donation")
+		}
+		if len(tx.Coll) > 0 {
+			rec.Class("has_collateral_inputs")
+		}
+		if tx.CollRet != nil {
+			rec.Class("has_collateral_return")
+		}
+		if len(tx.RefIns) > 0 {
+			rec.Class("has_reference_inputs")
+		}
+		if len(tx.Outs) == 0 {
+			rec.Class("no_outputs")
 		}
 		if poolRegisteredTwice(tx, c.SS) {
 			rec.Class("new_pool_registered_twice")
